@@ -7,11 +7,14 @@ use crate::types::strp;
 impl BoundingBox {
     pub fn xfrm_scale(&self, sx: f32, sy: f32) -> Self {
         // scale about (0, 0) - not the center of the bbox
+        // Note a negative scale mirrors the box, so min / max swap over.
+        let (x1, x2) = (self.x1 * sx, self.x2 * sx);
+        let (y1, y2) = (self.y1 * sy, self.y2 * sy);
         Self {
-            x1: self.x1 * sx,
-            y1: self.y1 * sy,
-            x2: self.x2 * sx,
-            y2: self.y2 * sy,
+            x1: x1.min(x2),
+            y1: y1.min(y2),
+            x2: x1.max(x2),
+            y2: y1.max(y2),
         }
     }
 
